@@ -69,6 +69,11 @@ SEND_HEAD = """        if packet.device_address == self.device_address {
 BCAST = """            if self.device_address != BROADCAST_ADDRESS {
                 return Ok(());
             }"""
+XFILTER = """                    if capture_all_addresses
+                        || received_packet.device_address == self.device_address
+                        || received_packet.device_address == BROADCAST_ADDRESS
+                    {"""
+XFILTER_ALL = XFILTER
 ADD_IFLET = """if let Err(err) = packet_builder.add_frame(ross_frame) {
                                 self.packet_builder = None;
 
@@ -161,6 +166,41 @@ VARIANTS = {
     "pr-B6-nextid-plus2": ("protocol.rs", rep(PR, "first_available_id += 1;", "first_available_id += 2;"), "src_nextHandlerId_eq"),
     "pr-B7-tick-owned-false": ("protocol.rs", rep(PR, "                    self.handle_packet(&packet, true);\n                } else {", "                    self.handle_packet(&packet, false);\n                } else {"), "src_tick_eq"),
     "pr-B8-send-dispatch-not-owned": ("protocol.rs", rep(PR, SEND_HEAD, "        if packet.device_address == self.device_address {\n            self.handle_packet(&packet, false);\n"), "src_sendPacket_eq"),
+    # ---- protocol.rs: handle_packet, add_packet_handler, exchange functions; harmless
+    "px-R1-handle-or-swapped": ("protocol.rs", rep(PR, "if owned_address || handler.1 {", "if handler.1 || owned_address {"), None),
+    "px-R2-filter-reordered": ("protocol.rs", rep(PR, XFILTER, """                    if received_packet.device_address == self.device_address
+                        || received_packet.device_address == BROADCAST_ADDRESS
+                        || capture_all_addresses
+                    {"""), None),
+    "px-R3-filter-nested": ("protocol.rs", rep(PR, XFILTER + """
+                        if let Ok(received_event) = R::try_from_packet(&received_packet) {
+                            return Ok(received_event);
+                        }
+                    }""", """                    if capture_all_addresses {
+                        if let Ok(received_event) = R::try_from_packet(&received_packet) {
+                            return Ok(received_event);
+                        }
+                    } else if received_packet.device_address == self.device_address
+                        || received_packet.device_address == BROADCAST_ADDRESS
+                    {
+                        if let Ok(received_event) = R::try_from_packet(&received_packet) {
+                            return Ok(received_event);
+                        }
+                    }"""), None),
+    "px-R4-timeout-return": ("protocol.rs", rep(PR, "        Err(ProtocolError::PacketTimeout)\n", "        return Err(ProtocolError::PacketTimeout);\n"), None),
+    "px-R5-untranslatable-loop": ("protocol.rs", rep(PR, "        wait_closure();\n\n        loop {\n            match self.interface.try_get_packet() {\n                Ok(received_packet) => {\n                    if capture_all_addresses\n                        || received_packet.device_address == self.device_address\n                        || received_packet.device_address == BROADCAST_ADDRESS\n                    {\n                        if let Ok(received_event) = R::try_from_packet(&received_packet) {\n                            return Ok(", "        wait_closure();\n        let _unused = 0u8;\n\n        loop {\n            match self.interface.try_get_packet() {\n                Ok(received_packet) => {\n                    if capture_all_addresses\n                        || received_packet.device_address == self.device_address\n                        || received_packet.device_address == BROADCAST_ADDRESS\n                    {\n                        if let Ok(received_event) = R::try_from_packet(&received_packet) {\n                            return Ok("), None),
+    # ---- protocol.rs: breaking
+    "px-B1-handle-and": ("protocol.rs", rep(PR, "if owned_address || handler.1 {", "if owned_address && handler.1 {"), "src_handlePacket_eq"),
+    "px-B2-handle-capture-only": ("protocol.rs", rep(PR, "if owned_address || handler.1 {", "if handler.1 {"), "src_handlePacket_eq"),
+    "px-B3-filter-and": ("protocol.rs", rep(PR, XFILTER, """                    if capture_all_addresses
+                        || received_packet.device_address == self.device_address
+                        && received_packet.device_address == BROADCAST_ADDRESS
+                    {"""), "src_exchangeLoop_eq"),
+    "px-B4-error-swallowed": ("protocol.rs", rep(PR, "                    InterfaceError::NoPacketReceived => break,\n                    _ => return Err(ProtocolError::InterfaceError(err)),\n                },\n            }\n        }\n\n        Err(ProtocolError::PacketTimeout)", "                    InterfaceError::NoPacketReceived => break,\n                    _ => break,\n                },\n            }\n        }\n\n        Err(ProtocolError::PacketTimeout)"), "src_exchangeLoop_eq"),
+    "px-B5-all-stops-at-first": ("protocol.rs", rep(PR, "                            events.push(received_event);\n", "                            events.push(received_event);\n                            break;\n"), "src_exchangeAllLoop_eq"),
+    "px-B6-no-filter": ("protocol.rs", rep(PR, XFILTER_ALL, "                    if true\n                    {"), "src_exchangeLoop_eq"),
+    "px-B7-wait-before-send": ("protocol.rs", rep(PR, "        self.send_packet(&packet)?;\n\n        wait_closure();\n\n        loop {\n            match self.interface.try_get_packet() {\n                Ok(received_packet) => {\n                    if capture_all_addresses\n                        || received_packet.device_address == self.device_address\n                        || received_packet.device_address == BROADCAST_ADDRESS\n                    {\n                        if let Ok(received_event) = R::try_from_packet(&received_packet) {\n                            return", "        wait_closure();\n\n        self.send_packet(&packet)?;\n\n        loop {\n            match self.interface.try_get_packet() {\n                Ok(received_packet) => {\n                    if capture_all_addresses\n                        || received_packet.device_address == self.device_address\n                        || received_packet.device_address == BROADCAST_ADDRESS\n                    {\n                        if let Ok(received_event) = R::try_from_packet(&received_packet) {\n                            return"), "src_exchange_eq"),
+    "px-B8-add-wrong-id": ("protocol.rs", rep(PR, "        self.handlers.insert(id, (handler, capture_all_addresses));", "        self.handlers.insert(id + 1, (handler, capture_all_addresses));"), "src_addHandler_eq"),
     # ---- interface/*.rs (frame-level tail of try_get_packet), harmless
     "rx-R1-add-as-match": ("interface/usart.rs", rep(US, ADD_IFLET, ADD_MATCH), None),
     "rx-R2-zero-flipped": ("interface/usart.rs", rep(US, "if packet_builder.frames_left() == 0 {", "if 0 == packet_builder.frames_left() {"), None),
